@@ -117,7 +117,10 @@ func Locksets(fn *ssa.Function, entry LockSet) map[ssa.Instruction]LockSet {
 			if _, isGo := ins.(*ssa.Go); isGo {
 				continue
 			}
-			if id, op, _ := MutexOp(ins); op != 0 {
+			if id, op, read := MutexOp(ins); op != 0 {
+				if read {
+					id += "#R" // shared (read) mode of an RWMutex
+				}
 				if op > 0 {
 					cur[id] = true
 				} else {
